@@ -24,6 +24,8 @@ pub fn install_panic_hook() {
         } else {
             "<non-string panic>".to_string()
         };
+        // n2 builds strs from unvalidated bytes: a message quoting one may not be valid UTF-8
+        let msg = String::from_utf8_lossy(msg.as_bytes()).into_owned();
         let file = info.location().map(|l| l.file().to_string()).unwrap_or_default();
         if std::env::var("N2CHECK_VERBOSE").is_ok() {
             eprintln!("panic: {} at {:?}", msg, info.location());
